@@ -384,8 +384,8 @@ Section T.
         apply BInv_mono; [exact G2|apply mono_add].
       + unfold with_spans; cbn [b_eb]. rewrite H3. exact Hi.
     - (* Dtd *) exact I.
-    - (* ElementStart *) destruct intag; [discriminate|]. cbn. split; [eapply BInv_same; [| |exact G]; reflexivity|]. unfold in_tag. cbn. discriminate.
-    - (* Attribute *) destruct intag; [|discriminate].
+    - (* ElementStart *) destruct intag; [discriminate|]. destruct (leading_colon _ _); [exact I|]. cbn. split; [eapply BInv_same; [| |exact G]; reflexivity|]. unfold in_tag. cbn. discriminate.
+    - (* Attribute *) destruct intag; [|discriminate]. destruct (leading_colon _ _); [exact I|].
       assert (forall r, Rs (fun st1 => b_stack st1 = b_stack st /\ b_spans st1 = b_spans st /\ in_tag st1) r -> Rs (J true) r) as K.
       { intros r Hr. eapply Rs_weaken; [exact Hr|]. intros st1 (H1 & H2 & H3). split; [eapply BInv_same; eauto|exact H3]. }
       destruct (str_eqb (ss_text prefix) s_xmlns).
@@ -395,7 +395,7 @@ Section T.
         * apply K. apply builder_attribute_spec. exact Hi.
     - (* EndOpen *) destruct intag; [|discriminate].
       eapply Rs_bind; [apply (open_element_spec st G Hi)|]. intros [st1 n] (G1 & He & _). cbn. split; assumption.
-    - (* EndClose *) destruct intag; [discriminate|].
+    - (* EndClose *) destruct intag; [discriminate|]. destruct (leading_colon _ _); [exact I|].
       eapply Rs_bind; [apply (close_element_spec st prefix local G)|]. intros [st1 n] (G1 & He & Hsp). cbn [fst] in *.
       cbn. split; [apply BInv_mono; [exact G1|apply mono_add]|unfold with_spans; cbn [b_eb]; congruence].
     - (* EndEmpty *) destruct intag; [|discriminate].
